@@ -346,11 +346,14 @@ proof fn lemma_ids_after_write(pre: Seq<NodeInfo>, post: Seq<NodeInfo>, m: Map<S
 {
     assert forall|i: int| 0 <= i < post.len() implies #[trigger] m.contains_key(post[i].job_id)
             && m[post[i].job_id] == i && valid_id(post[i].job_id@) by {
+        if i != n { assert(post[i] == pre[i]); }
         assert(post[i].job_id == pre[i].job_id);
         assert(m.contains_key(pre[i].job_id));
     }
     assert forall|k: String| #[trigger] m.contains_key(k) implies m[k] < post.len() && post[m[k] as int].job_id == k by {
-        assert(post[m[k] as int].job_id == pre[m[k] as int].job_id);
+        let i = m[k] as int;
+        assert(0 <= i < pre.len() && pre[i].job_id == k);
+        if i != n { assert(post[i] == pre[i]); }
     }
 }
 
@@ -887,5 +890,86 @@ impl<T: PPGEvaluatorStrategy> PPGEvaluator<T> {
             self.lemma_untouched(out1, out2, r, es, k);
             assert(str_split_once(key_edge(a, b), "!!!"@) == Some((a, b)));
         }
+    }
+}
+
+// ---- validation vocabulary (C03 / C15 / C16)
+/// the record of what `down` last consumed from `up` (C03: "the output that execution consumed").
+/// The fallback through `renamed_id` mirrors R8b (a renamed multi-output upstream); it is the only
+/// part of this definition taken from the code rather than from the statement.
+spec fn edge_record(h: Map<String, String>, up_id: Seq<char>, down_id: Seq<char>) -> Option<String> {
+    let key = str_of(key_edge(up_id, down_id));
+    if h.contains_key(key) {
+        Some(h[key])
+    } else {
+        match renamed_id(up_id, down_id, h) {
+            Some(x) => if h.contains_key(str_of(x)) { Some(h[str_of(x)]) } else { None },
+            None => None,
+        }
+    }
+}
+
+/// C15: whether the edge invalidates is "no record" or what the configured comparison says about
+/// (record, current output); None = the engine cannot decide (no current output although a record exists)
+spec fn edge_verdict(strategy: &dyn PPGEvaluatorStrategy, h: Map<String, String>, jobs: Seq<NodeInfo>, up: usize, down: usize) -> Option<bool> {
+    match edge_record(h, jobs[up as int].job_id@, jobs[down as int].job_id@) {
+        None => Some(true),
+        Some(l) => match jobs[up as int].history_output {
+            None => None,
+            Some(c) => Some(strategy.altered(jobs[up as int].job_id@, jobs[down as int].job_id@, l@, c@)),
+        },
+    }
+}
+
+spec fn edge_inv_spec(dag: &GraphType, strategy: &dyn PPGEvaluatorStrategy, h: Map<String, String>, jobs: Seq<NodeInfo>, up: usize, down: usize) -> Option<bool> {
+    match dag.edges()[(up, down)].invalidated {
+        Required::Yes => Some(true),
+        Required::No => Some(false),
+        Required::Unknown => edge_verdict(strategy, h, jobs, up, down),
+    }
+}
+
+spec fn req_of(b: bool) -> Required { if b { Required::Yes } else { Required::No } }
+
+/// dag1 is dag0 except for the weight of edge (a,b)
+spec fn dag_same_but(dag0: &GraphType, dag1: &GraphType, a: usize, b: usize) -> bool {
+    &&& dag1.nodes_set() == dag0.nodes_set()
+    &&& dag1.edges().dom() =~= dag0.edges().dom()
+    &&& forall|x: usize, y: usize| #![trigger dag1.edges()[(x, y)]] !(x == a && y == b) ==> dag1.edges()[(x, y)] == dag0.edges()[(x, y)]
+}
+
+/// how update_validation_status treats an upstream: 0 = judged through its edge (finished, or a
+/// validated Output), 1 = validated Ephemeral that has not run (judged through recorded outputs),
+/// 2 = still pending
+spec fn vclass(s: JobState) -> int {
+    if finished(s) || s == JobState::Output(JobStateOutput::NotReady(ValidationStatus::Validated)) {
+        0
+    } else if s == JobState::Ephemeral(JobStateEphemeral::ReadyButDelayed)
+        || s == JobState::Ephemeral(JobStateEphemeral::NotReady(ValidationStatus::Validated)) {
+        1
+    } else {
+        2
+    }
+}
+
+/// C03 / C15: does upstream u invalidate n?  None = the engine reports an internal error.
+spec fn up_invalidating(dag0: &GraphType, strategy: &dyn PPGEvaluatorStrategy, h: Map<String, String>,
+    jobs: Seq<NodeInfo>, u: usize, n: usize) -> Option<bool> {
+    let c = vclass(jobs[u as int].state);
+    if c == 0 {
+        edge_inv_spec(dag0, strategy, h, jobs, u, n)
+    } else if c == 1 {
+        if !h.contains_key(jobs[u as int].job_id) {
+            None
+        } else {
+            let k = str_of(key_edge(jobs[u as int].job_id@, jobs[n as int].job_id@));
+            if !h.contains_key(k) {
+                Some(true)
+            } else {
+                Some(strategy.altered(jobs[u as int].job_id@, jobs[n as int].job_id@, h[k]@, h[jobs[u as int].job_id]@))
+            }
+        }
+    } else {
+        Some(false)
     }
 }
